@@ -54,7 +54,7 @@ Lookup(d, key) ==
 \* var: operands are evaluated and inert; a present value (even null) beats the default
 Var(d, vs) ==
   IF Len(vs) = 0 THEN Ok(d)
-  ELSE IF KeyKind(vs[1]) = "bad" THEN Err
+  ELSE IF KeyKind(vs[1]) = "bad" THEN ErrK(EK_InvalidVariableKey)
   ELSE LET r == Lookup(d, vs[1])
        IN IF r.found THEN Ok(r.v) ELSE IF Len(vs) < 2 THEN Ok(Null) ELSE Ok(vs[2])
 
@@ -63,7 +63,7 @@ RECURSIVE MissingLoop(_, _, _, _)
 MissingLoop(d, ks, i, acc) ==
   IF i > Len(ks) THEN Ok(Arr(acc))
   ELSE LET kk == KeyKind(ks[i])
-       IN IF kk = "bad" THEN Err
+       IN IF kk = "bad" THEN ErrK(EK_InvalidVariableKey)
           ELSE IF kk = "null" THEN MissingLoop(d, ks, i + 1, acc)
           ELSE MissingLoop(d, ks, i + 1, IF Lookup(d, ks[i]).found THEN acc ELSE Append(acc, ks[i]))
 Missing(d, vs) ==
@@ -79,7 +79,7 @@ MissingSomeLoop(d, thr, ks, i, present, miss) ==
   IF i > Len(ks) \/ MetThreshold(present, thr)
   THEN Ok(Arr(IF MetThreshold(present, thr) THEN <<>> ELSE miss))
   ELSE LET kk == KeyKind(ks[i])
-       IN IF kk = "bad" THEN Err
+       IN IF kk = "bad" THEN ErrK(EK_InvalidVariableKey)
           ELSE IF kk = "null" THEN MissingSomeLoop(d, thr, ks, i + 1, present, miss)
           ELSE IF Lookup(d, ks[i]).found THEN MissingSomeLoop(d, thr, ks, i + 1, present + 1, miss)
           ELSE MissingSomeLoop(d, thr, ks, i + 1, present,
@@ -87,8 +87,8 @@ MissingSomeLoop(d, thr, ks, i, present, miss) ==
 MissingSome(d, vs) ==
   LET t == vs[1]
       ks == vs[2]
-  IN IF ~(t.t = "n" /\ t.k = "i" /\ t.s = 0) THEN Err
-     ELSE IF ks.t # "a" THEN Err
+  IN IF ~(t.t = "n" /\ t.k = "i" /\ t.s = 0) THEN ErrK(EK_InvalidArgument)
+     ELSE IF ks.t # "a" THEN ErrK(EK_InvalidArgument)
      ELSE MissingSomeLoop(d, t.m, ks.v, 1, 0, <<>>)
 
 \* ---- merge: one level
@@ -104,8 +104,8 @@ In(vs) ==
       hay == vs[2]
   IN CASE hay.t = "z" -> Ok(False)
        [] hay.t = "a" -> Ok(Bool(\E j \in DOMAIN hay.v : DeepNumEq(needle, hay.v[j])))
-       [] hay.t = "s" -> IF needle.t = "s" THEN Ok(Bool(IsSubSeq(needle.v, hay.v))) ELSE Err
-       [] OTHER -> Err
+       [] hay.t = "s" -> IF needle.t = "s" THEN Ok(Bool(IsSubSeq(needle.v, hay.v))) ELSE ErrK(EK_InvalidArgument)
+       [] OTHER -> ErrK(EK_InvalidArgument)
 
 \* ---- cat: concatenation of JS string forms
 RECURSIVE CatLoop(_, _)
@@ -121,9 +121,9 @@ ClampSmall(n, len) ==
   IN IF n.s = 1 THEN -a ELSE a
 Min2(a, b) == IF a < b THEN a ELSE b
 Substr(vs) ==
-  IF vs[1].t # "s" THEN Err
-  ELSE IF ~IsI64(vs[2]) THEN Err
-  ELSE IF Len(vs) = 3 /\ ~IsI64(vs[3]) THEN Err
+  IF vs[1].t # "s" THEN ErrK(EK_InvalidArgument)
+  ELSE IF ~IsI64(vs[2]) THEN ErrK(EK_InvalidArgument)
+  ELSE IF Len(vs) = 3 /\ ~IsI64(vs[3]) THEN ErrK(EK_InvalidArgument)
   ELSE LET cs == vs[1].v
            len == Len(cs)
            idx == ClampSmall(vs[2], len)
@@ -160,6 +160,12 @@ KeyOf(r) == r.v[1][1]
 \* {"op": x} means {"op": [x]} for every non-array x
 Operands(r) == LET x == r.v[1][2] IN IF x.t = "a" THEN x.v ELSE <<x>>
 HeadOK(r) == ArityOK(KeyOf(r), Len(Operands(r)))
+\* which error a bad head is (src/op/mod.rs op_from_map): a non-array operand is only accepted by operators
+\* that can take one operand; then the count is checked.  NoErr = the head is fine
+NoErr == <<>>
+HeadErr(r) == IF r.v[1][2].t # "a" /\ ~ArityOK(KeyOf(r), 1) THEN EK_InvalidOperation
+              ELSE IF ~HeadOK(r) THEN EK_WrongArgumentCount
+              ELSE NoErr
 
 \* semantic function of an eager operator on evaluated operands (positions read are within the arity)
 ApplyEager(k, vs) ==
